@@ -11,6 +11,7 @@ import Bp7.Model.TsGen
 import Bp7.Model.Ffi
 import Bp7.Spec.Rfc9171
 import Bp7.Driver.SecOps
+import Bp7.Driver.CliOps
 namespace Bp7.Driver
 open Bp7
 
@@ -296,7 +297,7 @@ def answer (line : String) : String :=
           | none => out ++ " || bad-op"
       "ok " ++ run b (splitOps ops) (stateLine b)
     | none => "bad-op"
-  | op :: rest => if op.startsWith "sec." then Sec.answer op rest else "bad-op"
+  | op :: rest => if op.startsWith "sec." then Sec.answer op rest else if op.startsWith "cli." then CliD.answer op rest else "bad-op"
   | _ => "bad-op"
 
 end Bp7.Driver
